@@ -791,6 +791,8 @@ package httpserver
 //@   requires h != nil && h.keysToSiteConfigs != nil
 //@   modifies httpContext.siteConfigs, E:*github.com/tmpim/casket/caskethttp/httpserver.SiteConfig, MV:map[string]*github.com/tmpim/casket/caskethttp/httpserver.SiteConfig, MD:map[string]*github.com/tmpim/casket/caskethttp/httpserver.SiteConfig
 //@   ensures [site_listed_last_and_filed_under_its_key] len(h.siteConfigs) == old(len(h.siteConfigs)) + 1 && h.siteConfigs[len(h.siteConfigs)-1] == cfg && has(h.keysToSiteConfigs, key) && h.keysToSiteConfigs[key] == cfg
+//@   ensures [other_keys_kept] forallT(k, string, k != key ==> (has(h.keysToSiteConfigs, k) == old(has(h.keysToSiteConfigs, k)) && h.keysToSiteConfigs[k] == old(h.keysToSiteConfigs[k])))
+//@   ensures [other_tables_untouched] unchanged_except("map:map[string]*github.com/tmpim/casket/caskethttp/httpserver.SiteConfig", h.keysToSiteConfigs)
 //@ func newLimitWriter
 //@   ensures result != nil && result.remain == max
 //@ func newContext
@@ -956,3 +958,41 @@ package httpserver
 //@   requires srvOK()
 //@ func (*Server).outputSiteInfo
 //@   requires srvOK()
+
+//@ unit logger_rest_sweep props=C20,C11 files=logger.go nilchecks=on nonnil_params=on exclude=`httpserver\.Logger\)\.(ShouldLog|Println|Printf)$` filter=`.`
+//@ // the rest of the logger (address masking of logged client IPs, attaching to the controller, syslog address parsing,
+//@ // start and close): safety sweep
+//@ use @verif/specs/stdlib.spec:stdlib
+
+//@ unit plugin_rest_sweep props=C11,C15,C01 files=plugin.go nilchecks=on nonnil_params=on exclude=`httpserver\.httpContext\)\.(InspectServerBlocks|MakeServers|saveConfig)$|httpserver\.Address\)\.(Normalize|String|Key|VHost)$|httpserver\.(standardizeAddress|groupSiteConfigsByListenAddr|newContext|hideCasketfile|GetConfig)$` filter=`.`
+//@ // the rest of the server type's plugin code (configuration lookup by key, the short Casketfile loader, development
+//@ // directive registration): safety sweep
+//@ use @verif/specs/stdlib.spec:stdlib
+//@ // GetConfig through what unit get_config proves of it
+//@ func GetConfig
+//@   ensures result != nil && result.TLS != nil && result.TLS.Issuer != nil && result.TLS.Manager != nil
+
+//@ unit get_config frames=on props=C11,C15,C06 nilchecks=on filter=`httpserver\.GetConfig$`
+//@ // What every directive's setup assumes of GetConfig (unit casket_api of the shared specifications), proved: the site
+//@ // configuration it hands out exists and carries a TLS configuration with its certificate manager and issuer - for a key
+//@ // the context knows (object invariant of the context's key table, re-established here when a new entry is filed) and for
+//@ // an unknown key (a fresh configuration is made and filed, the test path).
+//@ invariant (h *httpContext, k string) (h != nil && h.keysToSiteConfigs != nil && has(h.keysToSiteConfigs, k)) ==> (h.keysToSiteConfigs[k] != nil && h.keysToSiteConfigs[k].TLS != nil && h.keysToSiteConfigs[k].TLS.Issuer != nil && h.keysToSiteConfigs[k].TLS.Manager != nil)
+//@ extern (*github.com/tmpim/casket.Controller).Context
+//@   pure
+//@ extern github.com/caddyserver/certmagic.NewDefault
+//@   ensures result != nil
+//@ extern github.com/caddyserver/certmagic.NewACMEIssuer
+//@   ensures result != nil
+//@ func normalizedKey
+//@   pure
+//@ func (*httpContext).saveConfig
+//@   requires h != nil && h.keysToSiteConfigs != nil
+//@   modifies httpContext.siteConfigs, E:*github.com/tmpim/casket/caskethttp/httpserver.SiteConfig, MV:map[string]*github.com/tmpim/casket/caskethttp/httpserver.SiteConfig, MD:map[string]*github.com/tmpim/casket/caskethttp/httpserver.SiteConfig
+//@   ensures [site_listed_last_and_filed_under_its_key] len(h.siteConfigs) == old(len(h.siteConfigs)) + 1 && h.siteConfigs[len(h.siteConfigs)-1] == cfg && has(h.keysToSiteConfigs, key) && h.keysToSiteConfigs[key] == cfg
+//@   ensures [other_keys_kept] forallT(k, string, k != key ==> (has(h.keysToSiteConfigs, k) == old(has(h.keysToSiteConfigs, k)) && h.keysToSiteConfigs[k] == old(h.keysToSiteConfigs[k])))
+//@   ensures [other_tables_untouched] unchanged_except("map:map[string]*github.com/tmpim/casket/caskethttp/httpserver.SiteConfig", h.keysToSiteConfigs)
+//@ func GetConfig
+//@   requires c != nil && c.Context() != nil && (*httpContext)(c.Context()).keysToSiteConfigs != nil
+//@   modifies httpContext.siteConfigs, E:*github.com/tmpim/casket/caskethttp/httpserver.SiteConfig, MV:map[string]*github.com/tmpim/casket/caskethttp/httpserver.SiteConfig, MD:map[string]*github.com/tmpim/casket/caskethttp/httpserver.SiteConfig, Config.Issuers
+//@   ensures [a_site_configuration_with_its_tls_manager_and_issuer] result != nil && result.TLS != nil && result.TLS.Issuer != nil && result.TLS.Manager != nil
